@@ -42,10 +42,34 @@ UTF-8); `Regex::is_match` (`Opts.isMatch`: regex text ↦ line ↦ Bool); the it
 result map (`HashOrder.recs`: the order of the FILE records of an unsorted type); everything the writers print that is not coverage (`Printed`: floats, the
 cobertura timestamp, the coveralls `git` object and source digests – C13's and C03's subjects);
 the order in which the inputs are merged (here: as listed; `Props/C02Run.lean` shows what it can
-change). Not in this model: gcno/gcda and gcov-JSON inputs, profraw inputs, the Java/Kotlin
+change).
+
+Fifth session (package X1) – every input kind that needs no external tool, every report type:
+* INPUTS. `Input.gcno stem gcno gcdas`: an LLVM-mode notes file with the run data files of the same
+  stem (`--llvm`, or a notes file whose header says `*204` / `*804`: producer.rs 96-106, 381-398 –
+  `ItemType::Buffers`), computed by `Gcno::compute` (`Gcno.computeBytes`, the byte-level model of
+  C08/C14/C15). `Err` ⇒ logged, the item contributes nothing (lib.rs 318-322); the debug-build counter
+  overflow (known finding C14-gcno-counter-overflow) kills the worker (`crash`).
+  gcov JSON (`.gcov.json.gz`) is NOT an input kind of the binary: `producer` only classifies
+  `gcno gcda profdata profraw info xml` and `linked-files-map.json` (producer.rs 94-140); the JSON
+  reader `parse_gcov_gz` is only reached behind the external `gcov` tool (lib.rs 240-292, `ItemType::
+  Path`), which C20's Consumer model covers with a scripted gcov. It stays outside `run`.
+* OUTPUTS. `OutType.markdown` (`output_markdown`: `MdBytes.markdownBytes`; the one type sorted by
+  default) is a stream type like the seven; `html` is a DIRECTORY: `runHtml` = every page and index
+  (`HtmlBytes.site`: one job per record in list order, the source bytes `World.raw`), the five badges
+  and `coverage.json` (`MdBytes.badgeBytes`, `coverageJsonBytes` on `global.stats`); the date is a
+  parameter (`Opts.htmlDate`, `none` = `--no-date`), limits are the defaults (no
+  `--output-config-file`). The bundled style sheet (`--html-resources bundled`) is a constant of the
+  crate: named (`bundledNames`), not modelled. Several `-t` with `-o <existing directory>`
+  (main.rs 519-547): `runMulti` = per type, in command-line order, the file `to_file_name` names
+  (`MainGlue.fixedName`) or the html directory `html`; `rewrite_paths` runs once, each type is sorted
+  or not on its own.
+Not in this model: profraw/profdata inputs and GCC-mode gcno (external tools: C20), the Java/Kotlin
 partial-path lookup (`Rewrite/Partial.lean`; `C11_partial_conservative` says when it is the
 identity: every key exists below the source directory), path mapping files found in the inputs,
-demangling (`--no-demangle`), html and markdown output (C03/C13 have them), several `-t` at once.
+demangling (`--no-demangle`), `--guess-directory-when-missing`, `cobertura-pretty`, the html
+configuration file, what `output_html` does when a page file and a directory collide on disk
+(`Writers/HtmlDisk.lean`, C03's `C03_htmldisk_*`: under its guards the flat map of `site` IS the disk).
 Core Lean only: linked into the native driver `gmodel`.
 -/
 import GrcovModel.Cli
@@ -53,6 +77,9 @@ import GrcovModel.FileFilter
 import GrcovModel.MainGlue
 import GrcovModel.Jacoco.Bytes
 import GrcovModel.Writers.JsonBytes
+import GrcovModel.Writers.HtmlBytes
+import GrcovModel.Writers.MdBytes
+import GrcovModel.Gcno.Bin
 namespace Grcov.Cli.RunAll
 open Grcov AList Grcov.Lcov Grcov.Rewrite Grcov.FileFilter
 open Grcov.Writers Grcov.Writers.Docs Grcov.Writers.JsonBytes
@@ -60,10 +87,12 @@ open Grcov.Writers Grcov.Writers.Docs Grcov.Writers.JsonBytes
 /-! ### inputs -/
 
 /-- one work item as the producer hands it to a consumer: `ItemFormat::Info` or
-`ItemFormat::JacocoXml`, with the bytes of the file -/
+`ItemFormat::JacocoXml` with the bytes of the file, or `ItemFormat::Gcno` with `ItemType::Buffers`
+(LLVM mode): the stem, the bytes of the notes file and of every run data file of that stem -/
 inductive Input where
   | lcov (bytes : Bytes)
   | jacoco (bytes : Bytes)
+  | gcno (stem : Bytes) (gcno : Bytes) (gcdas : List Bytes)
 deriving DecidableEq, Repr
 
 /-- the records an input contributes; a rejected input contributes nothing -/
@@ -71,6 +100,11 @@ def contents (branch : Bool) : Input → List (Bytes × Cov)
   | .lcov b => Cli.parseInput branch b
   | .jacoco b =>
     match Jacoco.Bytes.parseBytes b with
+    | .ok rs => rs
+    | _ => []
+  | .gcno _ g ds =>
+    -- lib.rs 306-323: `Gcno::compute(&stem, gcno_buf, gcda_buf, branch_enabled)`; `Err` ⇒ `Vec::new()`
+    match Gcno.computeBytes g ds branch with
     | .ok rs => rs
     | _ => []
 
@@ -85,11 +119,17 @@ def crash (branch : Bool) : Input → Option String
     | .alloc => some "jacoco: capacity overflow"
     | .diverge => some "jacoco: diverge"
     | _ => none
+  | .gcno _ g ds =>
+    match Gcno.computeBytes g ds branch with
+    | .crash _ => some "gcno: counter overflow"
+    | .diverge => some "gcno: diverge"
+    | _ => none
 
 /-- the parser returns `Err`: `try_parse!` logs and skips the input -/
 def rejected (branch : Bool) : Input → Prop
   | .lcov b => ∃ k, Lcov.parse branch b = .err k
   | .jacoco b => ∃ k, Jacoco.Bytes.parseBytes b = .err k
+  | .gcno _ g ds => ∃ k, Gcno.computeBytes g ds branch = .err k
 
 /-! ### the world and the options -/
 
@@ -97,10 +137,14 @@ structure World where
   fs : FS
   /-- `std::fs::read_to_string` of an absolute path as `rewrite_paths` computed it -/
   text : Bytes → Option (List Nat)
+  /-- `File::open` + `read_to_end` of an absolute path (html.rs 406-453: the source of a page):
+  the bytes, whatever they are; `none` = the file cannot be opened -/
+  raw : Bytes → Option (List Nat) := fun _ => none
 
-/-- the seven report types of this model -/
+/-- the report types of this model that are ONE byte stream (a file or standard output): the seven
+of the fourth session and markdown; html is a directory (`runHtml`) -/
 inductive OutType where
-  | lcov | covdir | coveralls | coverallsPlus | cobertura | ade | files
+  | lcov | covdir | coveralls | coverallsPlus | cobertura | ade | files | markdown
 deriving DecidableEq, Repr
 
 def OutType.toMain : OutType → MainGlue.OutputType
@@ -111,6 +155,7 @@ def OutType.toMain : OutType → MainGlue.OutputType
   | .cobertura => .cobertura
   | .ade => .ade
   | .files => .files
+  | .markdown => .markdown
 
 /-- the iteration order of the result map, an `FxHashMap` (`rewrite_paths` returns its entries in
 that order): a rearrangement of what it is given (`HashOrder.OK` in Lemmas/CliRunAll.lean). The
@@ -144,6 +189,14 @@ structure Opts where
   sortTypes : List MainGlue.OutputType := [.markdown]
   hash : HashOrder := {}
   pr : Printed := {}
+  /-- `--precision` as `output_markdown` and `output_html` receive it (covdir's figures are `pr.cdFill`) -/
+  precision : Nat := 2
+  /-- html: `conf.date` as printed (`%Y-%m-%d %H:%M`); `none` = `--no-date` -/
+  htmlDate : Option Bytes := none
+  /-- html: `--html-resources bundled` -/
+  htmlBundled : Bool := false
+  /-- html: `--abs-link-prefix` -/
+  absPrefix : Option Bytes := none
 
 /-! ### exclusion markers inside `rewrite_paths` -/
 
@@ -232,6 +285,7 @@ def render (o : Opts) (rs : List Rec) : Res Bytes :=
     match CobAde.ade (rs.map relCov) with
     | .panic s => .panic s
     | .ok recs => .ok (adeBytes o.pr.adePcts recs)
+  | .markdown => .ok (MdBytes.markdownBytes o.precision (rs.map toRes))
 
 /-- the report of a record list: order, present, write -/
 def report (o : Opts) (rs : List Rec) : Res Bytes := render o ((ordered o rs).map (present o))
@@ -248,6 +302,125 @@ def run (o : Opts) (w : World) (inputs : List Input) : Res Bytes :=
 
 /-- the same options without any `--excl-*` option -/
 def Opts.noMarkers (o : Opts) : Opts := { o with excl := ⟨none, none, none, none, none, none⟩ }
+
+/-! ### html: a directory of files (`output_html`, src/output.rs 532-629)
+
+The record list goes to the consumer threads of `output_html` one job per record (here: in list
+order, one thread; `C03_htmldisk_pages_any_order` and the commutativity of `HtmlStats::add` are why
+the thread count does not matter when no two records share a destination). A job whose rel path is
+not relative or whose source cannot be opened writes nothing and is not counted (html.rs 403-414).
+Then `gen_index` (global index, directory indexes), the five badges, `coverage.json`, and – only with
+`--html-resources bundled` – the style sheet. -/
+
+/-- a file below the output directory: component names, content -/
+abbrev OutFile := List Name × Bytes
+
+def htmlConf (o : Opts) : HtmlBytes.Conf :=
+  { branch := o.branch, precision := o.precision, date := o.htmlDate, bundled := o.htmlBundled }
+
+def htmlOpts (o : Opts) : HtmlBytes.Opts := ⟨htmlConf o, o.absPrefix⟩
+
+/-- one job per record: the record and the bytes of its source file -/
+def htmlJobs (w : World) (rs : List Rec) : List (Docs.Res × Option Bytes) :=
+  rs.map fun r => (toRes r, w.raw r.abs)
+
+def badgesDir : Name := [98, 97, 100, 103, 101, 115]                                   -- "badges"
+def coverageJsonName : Name := [99, 111, 118, 101, 114, 97, 103, 101, 46, 106, 115, 111, 110] -- "coverage.json"
+
+/-- `BadgeStyle::path` (html.rs 500-509) -/
+def badgeFile : MdBytes.BadgeStyle → Name
+  | .flat => [102, 108, 97, 116, 46, 115, 118, 103]                                     -- "flat.svg"
+  | .flatSquare => [102, 108, 97, 116, 95, 115, 113, 117, 97, 114, 101, 46, 115, 118, 103]
+  | .forTheBadge => [102, 111, 114, 95, 116, 104, 101, 95, 98, 97, 100, 103, 101, 46, 115, 118, 103]
+  | .plastic => [112, 108, 97, 115, 116, 105, 99, 46, 115, 118, 103]
+  | .social => [115, 111, 99, 105, 97, 108, 46, 115, 118, 103]
+
+/-- the files `gen_bundled_resources` adds with `--html-resources bundled` (a constant of the crate:
+named, not modelled) -/
+def bundledNames : List (List Name) := [[[98, 117, 108, 109, 97, 46, 109, 105, 110, 46, 99, 115, 115]]] -- "bulma.min.css"
+
+/-- `gen_badge` × 5 and `gen_coverage_json` on `global.stats` (default limits 90 / 75) -/
+def htmlExtras (o : Opts) (covered total : Nat) : List OutFile :=
+  MdBytes.BadgeStyle.all.map (fun s =>
+    ([badgesDir, badgeFile s], MdBytes.badgeBytes s covered total MdBytes.defaultHi MdBytes.defaultMed)) ++
+  [([coverageJsonName], MdBytes.coverageJsonBytes o.precision covered total MdBytes.defaultHi MdBytes.defaultMed)]
+
+/-- `output_html` on the list it is given: every `.html` file (a later write to the same path
+replaces an earlier one), then badges and `coverage.json`. `panic`: a consumer thread panics
+(`rel.parent()` / `file_name()` of a rel path without a file name): `process::exit(1)`. -/
+def renderHtml (o : Opts) (w : World) (rs : List Rec) : Res (List OutFile) :=
+  match HtmlBytes.runJobs (htmlOpts o) (htmlJobs w rs) ⟨[], .zero, o.absPrefix⟩,
+        HtmlBytes.site (htmlOpts o) (htmlJobs w rs) with
+  | some (g, _), some pages => .ok (pages ++ htmlExtras o g.stats.coveredLines g.stats.totalLines)
+  | _, _ => .panic "output_html: consumer thread"
+
+/-- main.rs 537 for html -/
+def sortedHtml (o : Opts) : Bool := o.sortTypes.contains .html
+
+def orderedHtml (o : Opts) (rs : List Rec) : List Rec :=
+  if sortedHtml o then MainGlue.sortRecs (o.hash.recs rs) else o.hash.recs rs
+
+def reportHtml (o : Opts) (w : World) (rs : List Rec) : Res (List OutFile) :=
+  renderHtml o w ((orderedHtml o rs).map (present o))
+
+/-- **One run with `-t html`**: input bytes to the files below the output directory -/
+def runHtml (o : Opts) (w : World) (inputs : List Input) : Res (List OutFile) :=
+  match inputs.findSome? (crash o.branch) with
+  | some s => .panic s
+  | none =>
+    match records o w inputs with
+    | .panic s => .panic s
+    | .ok rs => reportHtml o w rs
+
+/-! ### several `-t` with `-o <existing directory>` (main.rs 519-610) -/
+
+/-- a report type of the command line -/
+inductive OutKind where
+  | stream (t : OutType)
+  | html
+deriving DecidableEq, Repr
+
+def OutKind.toMain : OutKind → MainGlue.OutputType
+  | .stream t => t.toMain
+  | .html => .html
+
+/-- what one `-t` leaves in the output directory: a file named by `to_file_name`
+(`MainGlue.fixedName`), or the directory `html` -/
+inductive Artifact where
+  | file (name : Bytes) (bytes : Bytes)
+  | dir (name : Bytes) (files : List OutFile)
+deriving DecidableEq, Repr
+
+/-- the writers of the listed types, in order, on ONE record list (`rewrite_paths` runs once; each
+type gets the sorted or the unsorted list: main.rs 535-547); the first panic ends the process -/
+def writeKinds (o : Opts) (w : World) (rs : List Rec) : List OutKind → Res (List Artifact)
+  | [] => .ok []
+  | k :: ks =>
+    let one : Res Artifact :=
+      match k with
+      | .stream t =>
+        match report { o with out := t } rs with
+        | .ok b => .ok (.file (MainGlue.fixedName t.toMain) b)
+        | .panic s => .panic s
+      | .html =>
+        match reportHtml o w rs with
+        | .ok fs => .ok (.dir (MainGlue.fixedName .html) fs)
+        | .panic s => .panic s
+    match one with
+    | .panic s => .panic s
+    | .ok a =>
+      match writeKinds o w rs ks with
+      | .panic s => .panic s
+      | .ok as => .ok (a :: as)
+
+/-- **One run with several `-t` and `-o <existing directory>`** -/
+def runMulti (o : Opts) (w : World) (inputs : List Input) (kinds : List OutKind) : Res (List Artifact) :=
+  match inputs.findSome? (crash o.branch) with
+  | some s => .panic s
+  | none =>
+    match records o w inputs with
+    | .panic s => .panic s
+    | .ok rs => writeKinds o w rs kinds
 
 /-! ### the hash order given by a reference listing (what the driver uses)
 
